@@ -983,6 +983,46 @@ func envelopeRunCase(ec *envCodec, c envCase, scn int) M {
 	if !st.Ok {
 		m2["getSender"], m2["getSenderErr"] = "error", st.Err
 	}
+	// the same signed transaction in an envelope whose (unsigned) From field names somebody else:
+	// the recovered sender must still be the key holder
+	m2["getSenderForeignFrom"] = "skip"
+	_ = envTry(func() error {
+		var cp evmtypes.MsgEthereumTx
+		bz, err := msg2.Marshal()
+		if err != nil {
+			return err
+		}
+		if err := cp.Unmarshal(bz); err != nil {
+			return err
+		}
+		cp.From = "0x2222222222222222222222222222222222222222"
+		b := ec.txConfig.NewTxBuilder()
+		if err := b.SetMsgs(&cp); err != nil {
+			return err
+		}
+		enc, err := ec.txConfig.TxEncoder()(b.GetTx())
+		if err != nil {
+			return err
+		}
+		dec, err := ec.txConfig.TxDecoder()(enc)
+		if err != nil {
+			return err
+		}
+		out, ok := dec.GetMsgs()[0].(*evmtypes.MsgEthereumTx)
+		if !ok {
+			return fmt.Errorf("not an ethereum message")
+		}
+		td3, err := evmtypes.UnpackTxData(out.Data)
+		if err != nil {
+			return err
+		}
+		from, err := out.GetSender(td3.GetChainID())
+		if err != nil {
+			return err
+		}
+		m2["getSenderForeignFrom"] = strings.ToLower(from.Hex())
+		return nil
+	})
 
 	// 3b. the JSON encoding of the same Cosmos transaction
 	line["json"] = envTry(func() error {
